@@ -193,6 +193,8 @@ def r13_play(ctx):
 
     def now(interp, args, kwargs, node):
         c = P(f'c{clock["n"]}')
+        if clock['n'] == 0 and clock.get('zero'):
+            c = 0.0                 # a clock that reads exactly zero when playback starts (a stream position, a simulated clock)
         log_event('now', clock['n'])
         clock['n'] += 1
         return c
@@ -207,16 +209,18 @@ def r13_play(ctx):
     D = Poly.const(500000)
     d1 = P('t1').mul(D).mul(Poly.const(1e-6)).div(B)
     d2 = P('t2').mul(D).mul(Poly.const(1e-6)).div(B)
-    for meta_on in (False, True):
+    for meta_on, zero in ((False, False), (True, False), (False, True), (True, True)):
         def thunk():
             clock['n'] = 0
+            clock['zero'] = zero
             a = wire.make_message(ctx, 'note_on', {'channel': 0, 'note': 1, 'velocity': 64}, None)
             a.attrs['time'] = P('t1')
             b = wire.make_meta(ai, ctx, 'marker', {'text': 'x'}, P('t2'))
             mf = _file(ctx, ai, 1, AList([AList([a, b], 'MidiTrack')], 'list'), B)
             return ai.call_function(play, [mf], {'meta_messages': meta_on, 'now': ExtRef('test.now')})
         outs = ai.explore(thunk, limit=64)
-        inst = f'play(meta_messages={meta_on})'
+        inst = f'play(meta_messages={meta_on}{", clock reads 0.0 at the start" if zero else ""})'
+        c0 = Poly.const(0) if zero else P('c0')
         cons = f'{play.qname}'
         if not outs or not all(o_.kind == 'return' for o_ in outs):
             ctx.fail('R13.4', inst, w, f'play outcomes: {outs}', construct=cons + '::outcomes')
@@ -230,9 +234,9 @@ def r13_play(ctx):
             # events in order: now(0) start; per message: now(k) ... [sleep] ... yield
             sleeps = [e for e in log if e[0] == 'sleep']
             # expected sleep arguments
-            exp1 = d1.sub(P('c1').sub(P('c0')))
-            exp2 = d1.add(d2).sub(P('c2').sub(P('c0')))
-            exp3 = d1.add(d2).sub(P('c3').sub(P('c0')))
+            exp1 = d1.sub(P('c1').sub(c0))
+            exp2 = d1.add(d2).sub(P('c2').sub(c0))
+            exp3 = d1.add(d2).sub(P('c3').sub(c0))
             for sl in sleeps:
                 arg = sl[1]
                 if not isinstance(arg, Poly) or not (arg.close_to(exp1) or arg.close_to(exp2) or arg.close_to(exp3)):
@@ -265,7 +269,7 @@ def r13_play(ctx):
             why = why or 'sleep is not conditional on the remaining time being positive'
         # every message that is handed out has its scheduled time waited for - meta messages too when they are yielded:
         # for each of the three messages some outcome must sleep for exactly its remaining time
-        exp = [d1.sub(P('c1').sub(P('c0'))), d1.add(d2).sub(P('c2').sub(P('c0'))), d1.add(d2).sub(P('c3').sub(P('c0')))]
+        exp = [d1.sub(P('c1').sub(c0)), d1.add(d2).sub(P('c2').sub(c0)), d1.add(d2).sub(P('c3').sub(c0))]
         for k, (ek, what) in enumerate(zip(exp, ('the note_on', 'the marker (a meta message)', 'the closing end_of_track'))):
             if k > 0 and not meta_on:
                 continue            # a message that is not handed out need not be waited for (the next one has its own schedule)
@@ -273,7 +277,7 @@ def r13_play(ctx):
             if not hit and ok_all:
                 ok_all = False
                 why = f'no execution waits for the scheduled time of {what}: it is handed out (or passed over) the moment its predecessor was - before its time'
-        ctx.require(ok_all, 'R13.4', inst, w, why, construct=cons + f'::schedule(meta={meta_on})')
+        ctx.require(ok_all, 'R13.4', inst, w, why, construct=cons + f'::schedule(meta={meta_on}{", zero clock" if zero else ""})')
     for q in ai.inlined:
         ctx.functions.add(q)
 
